@@ -9,7 +9,10 @@ obs   : {"applied": bool, "out": [[t_ms, kind, ...], ...], "state": str, "now": 
 
 cfg   : proxy (client: explicit HTTP proxy), role, failByDrop, echo, openTO, closeTO, dropTO, pingInt, pingTO (all ms), pingSize, restart, t0 (ms)
 events: ["proxyok"] ["proxybad"] ["hs"] ["badhs"] ["sendClose", code|null, reasonhex|null] ["sendMessage"] ["sendPing"] ["sendPong"]
+        ["beginMessage"] ["sendMessageFrame"] ["endMessage"]            (streaming API, modelled)
+        ["peerFrag", cont, fin] ["peerHead"] ["peerTail"]              (fragments / a frame split over two reads, modelled)
         ["sendMessageSync"] ["sendChopped"] ["tickus", microseconds]   (send queue; not in the Gallina model)
+        ["beginMessageFrame", n] ["sendMessageFrameData", n] ["sendPrepared"]   (oracle-only)
         ["peerClose", code|null, reasonhex|null] ["peerClose1"] ["peerData"] ["peerPing"] ["peerPong", matching]
         ["peerViolation"] ["peerInvalid"] ["tick", t_ms] ["tickrel", "next"|ms] ["peerDrop", clean] ["ownDrop"]
 All times must be multiples of 125 ms (dyadic => exact in binary floating point on both virtual clocks).
@@ -60,6 +63,100 @@ def frame(opcode, payload=b"", masked=False, fin=True, rsv=0):
     return bytes([b0, n]) + payload
 
 
+
+class WireTok:
+    """Incremental reader of the octets WE write (independent of autobahn's parser): one token list per transport.write.
+    A frame that arrives complete in one write -> one frame token (as before).  A frame spread over several writes
+    (streaming API, chopped writes) -> ["whdr", opcode, fin, length] when its header is complete, ["wpayload", n] for every
+    write carrying n payload octets, and for control frames additionally the frame token when complete."""
+    def __init__(self, client, ping_size):
+        self.client, self.ping_size = client, ping_size
+        self.hdr = b""; self.need = None; self.frame = None   # frame = dict while inside payload
+
+    def mid_frame(self):
+        return self.frame is not None or self.hdr != b""
+
+    def frame_token(self, f):
+        out = []
+        if self.client != f["masked"] or f["rsv"]:
+            out.append(["badframe", f["opcode"]])
+        op, pl = f["opcode"], f["payload"]
+        if op == 8:
+            code = struct.unpack("!H", pl[:2])[0] if len(pl) >= 2 else None
+            if len(pl) == 1:
+                out.append(["badframe", 8])
+            out.append(["wclose", code, pl[2:].hex() if len(pl) > 2 else None])
+        elif op == 9:
+            if len(pl) == self.ping_size and len(pl) >= 12 and pl != b"p":
+                out.append(["wping", struct.unpack(">L", pl[8:12])[0]])
+            else:
+                out.append(["wping", None])
+        elif op == 10:
+            out.append(["wpong"])
+        elif op in (0, 1, 2):
+            out.append(["wdata", op, f["fin"], pl.decode("latin1")])
+        else:
+            out.append(["badframe", op])
+        return out
+
+    def feed(self, data):
+        out, i, n = [], 0, len(data)
+        whole_from = None
+        while i < n:
+            if self.frame is None:
+                start_of_frame = (self.hdr == b"")
+                if start_of_frame:
+                    whole_from = i
+                # collect header
+                while i < n:
+                    self.hdr += data[i:i + 1]; i += 1
+                    h = self.hdr
+                    if len(h) >= 2:
+                        ln7 = h[1] & 0x7F
+                        need = 2 + (2 if ln7 == 126 else 8 if ln7 == 127 else 0) + (4 if h[1] & 0x80 else 0)
+                        if len(h) == need:
+                            break
+                h = self.hdr
+                if len(h) < 2 or len(h) < 2 + (2 if (h[1] & 0x7F) == 126 else 8 if (h[1] & 0x7F) == 127 else 0) + (4 if h[1] & 0x80 else 0):
+                    break                                   # header incomplete, wait for more octets
+                ln7 = h[1] & 0x7F; j = 2
+                if ln7 == 126: ln = int.from_bytes(h[2:4], "big"); j = 4
+                elif ln7 == 127: ln = int.from_bytes(h[2:10], "big"); j = 10
+                else: ln = ln7
+                masked = bool(h[1] & 0x80); mask = h[j:j + 4] if masked else None
+                self.frame = dict(fin=bool(h[0] & 0x80), rsv=(h[0] >> 4) & 7, opcode=h[0] & 15, masked=masked, mask=mask,
+                                  length=ln, got=b"", whole=(start_of_frame and whole_from is not None), announced=False)
+                self.hdr = b""
+            f = self.frame
+            take = min(f["length"] - len(f["got"]), n - i)
+            f["got"] += data[i:i + take]; i += take
+            if len(f["got"]) == f["length"]:
+                pl = f["got"]
+                if f["masked"]:
+                    pl = bytes(b ^ f["mask"][k & 3] for k, b in enumerate(pl))
+                f["payload"] = pl
+                if f["whole"]:
+                    out += self.frame_token(f)
+                else:
+                    if not f["announced"]:
+                        out.append(["whdr", f["opcode"], f["fin"], f["length"]])
+                    if take:
+                        out.append(["wpayload", take])
+                    if f["opcode"] >= 8:
+                        out += self.frame_token(f)
+                    else:
+                        out.append(["wsplitdone", f["opcode"], pl.decode("latin1")])   # a split data frame is complete
+                self.frame = None; whole_from = None
+            else:
+                # the write ends inside this frame
+                if not f["announced"]:
+                    out.append(["whdr", f["opcode"], f["fin"], f["length"]]); f["announced"] = True
+                if take:
+                    out.append(["wpayload", take])
+                f["whole"] = False
+        return out
+
+
 class Case:
     def __init__(self, cfg):
         self.cfg = cfg
@@ -86,6 +183,9 @@ class Case:
         txaio.add_callbacks(self.p.is_open, lambda _: log.append(["is_open"]), lambda f: log.append(["is_open_err"]))
         self.pos = 0
         self.wbuf = b""
+        self.tok = WireTok(self.role == "client", cfg["pingSize"])
+        self.http_done = False
+        self.rx_tail = None          # the withheld rest of a partially delivered frame
         self.last_auto_ping = None
         self.c.make()
         self.settle()
@@ -229,6 +329,27 @@ class Case:
             c.call("sendClose", **kw); self.settle()
         elif k == "sendMessage":
             c.call("sendMessage", b"m", True); self.settle()
+        elif k == "beginMessage":
+            c.call("beginMessage", True); self.settle()
+        elif k == "sendMessageFrame":
+            # outside a message (send_state GROUND) in OPEN the call is API misuse: it raises Exception, or AttributeError
+            # (send_compressed does not exist before the first beginMessage); not offered
+            if st == "OPEN" and int(getattr(self.p, "send_state", 0)) == 0:
+                return False
+            c.call("sendMessageFrame", b"fr"); self.settle()
+        elif k == "endMessage":
+            # outside a message in OPEN: API misuse (AttributeError before the first beginMessage, afterwards a stray
+            # continuation frame); not offered
+            if st == "OPEN" and int(getattr(self.p, "send_state", 0)) == 0:
+                return False
+            c.call("endMessage"); self.settle()
+        elif k == "beginMessageFrame":      # raw streaming calls (oracle-only family)
+            c.call("beginMessageFrame", int(ev[1])); self.settle()
+        elif k == "sendMessageFrameData":
+            c.call("sendMessageFrameData", b"x" * int(ev[1])); self.settle()
+        elif k == "sendPrepared":
+            pm = c.factory.prepareMessage(b"PM", isBinary=True)
+            c.call("sendPreparedMessage", pm); self.settle()
         elif k == "sendMessageSync":        # trickled through send_queue/_trigger/_send (_QUEUED_WRITE_DELAY)
             self.nsync = getattr(self, "nsync", 0) + 1
             c.call("sendMessage", b"s%d" % self.nsync, True, None, True); self.settle()
@@ -269,6 +390,32 @@ class Case:
         else:
             if self.gone or st in ("CONNECTING", "PROXY_CONNECTING"):
                 return False
+            flow = st in ("OPEN", "CLOSING")
+            inmsg = bool(getattr(self.p, "inside_message", False))
+            partial = self.rx_tail is not None
+            if k == "peerTail":
+                if not (flow and partial):
+                    return False
+                data, self.rx_tail = self.rx_tail, None
+                self.feed(data)
+                return True
+            if flow and partial:
+                return False                       # whatever we sent now would be read as payload of the unfinished frame
+            if k in ("peerData", "peerInvalid") and flow and inmsg:
+                return False
+            if k == "peerHead":
+                if not flow or inmsg:
+                    return False
+                fr_ = frame(2, b"hd", masked=(self.role == "server"))
+                self.rx_tail = fr_[-1:]
+                self.feed(fr_[:-1])
+                return True
+            if k == "peerFrag":
+                cont, fin = bool(ev[1]), bool(ev[2])
+                if not flow or cont != inmsg:
+                    return False
+                self.peer_frame(0 if cont else 2, b"f", fin=fin)
+                return True
             if k == "peerClose":
                 code, rh = ev[1], ev[2]
                 p = (struct.pack("!H", code) if code is not None else b"") + (bytes.fromhex(rh) if rh is not None else b"")
@@ -314,37 +461,14 @@ class Case:
             k = e[0]
             if k == "write":
                 data = bytes.fromhex(e[1])
-                if self.wbuf == b"" and (data[:4] in (b"GET ", b"HTTP", b"CONN") or data[:1] == b"<"):
+                if not self.tok.mid_frame() and (data[:4] in (b"GET ", b"HTTP", b"CONN") or data[:1] == b"<"):
                     out.append([t, "http"])
                     continue
-                self.wbuf += data
-                try:
-                    frames, rest = wsdrv.parse_frames(self.wbuf)
-                except ValueError as e:
-                    out.append([t, "badframe", "unparsable: " + str(e)]); frames, rest = [], b""
-                self.wbuf = rest
-                for f in frames:
-                    if (self.role == "client") != f["masked"] or not f["fin"] or f["rsv"]:
-                        out.append([t, "badframe", f["opcode"]])
-                    op, pl = f["opcode"], f["payload"]
-                    if op == 8:
-                        code = struct.unpack("!H", pl[:2])[0] if len(pl) >= 2 else None
-                        if len(pl) == 1:
-                            out.append([t, "badframe", 8])
-                        reason = pl[2:].hex() if len(pl) > 2 else None
-                        out.append([t, "wclose", code, reason])
-                    elif op == 9:
-                        if len(pl) == self.cfg["pingSize"] and pl != b"p" and len(pl) >= 12:
-                            seq = struct.unpack(">L", pl[8:12])[0]
-                            out.append([t, "wping", seq])
-                        else:
-                            out.append([t, "wping", None])
-                    elif op == 10:
-                        out.append([t, "wpong"])
-                    elif op in (1, 2):
-                        out.append([t, "wdata", pl.decode("latin1")])
+                for tk in self.tok.feed(data):
+                    if tk[0] == "wdata":
+                        out.append([t, "wdata", tk[3]])
                     else:
-                        out.append([t, "badframe", op])
+                        out.append([t] + tk)
             elif k in ("lose", "abort"):
                 out.append([t, k])
             elif k == "open":
@@ -385,7 +509,9 @@ class Case:
                      wasOpenTO=bool(p.wasOpenHandshakeTimeout), wasCloseTO=bool(p.wasCloseHandshakeTimeout),
                      wasDropTO=bool(p.wasServerConnectionDropTimeout),
                      localCode=p.localCloseCode, remoteCode=p.remoteCloseCode,
-                     pingPending=bool(getattr(p, "autoPingPending", None)), pingSeq=p.autoPingPendingSeq)
+                     pingPending=bool(getattr(p, "autoPingPending", None)), pingSeq=p.autoPingPendingSeq,
+                     inMsg=bool(getattr(p, "inside_message", False)), rxPartial=self.rx_tail is not None,
+                     sendState=int(getattr(p, "send_state", 0)), midFrame=self.tok.mid_frame())
         r = dict(applied=applied, out=out, state=self.state(), now=now, timers=self.timers(), flags=flags)
         if getattr(self, "resolved", None) is not None:
             r["tick_to"] = self.resolved      # absolute time a relative tick was resolved to
